@@ -22,7 +22,8 @@ PROPS = {
     'C13': dict(parts=[dict(profile='C13', flavor='asan', quick=15000, thorough=500000)], level='exploration'),
     'C14': dict(parts=[dict(profile='C14', flavor='asan', quick=500, thorough=3000, enumerate=True, quick_args=['--max-subs', '500'], thorough_args=[]),
                        dict(profile='C14B', flavor='asan', quick=24, thorough=400, enumerate=True, modeb=True, quick_subs=150, thorough_subs=0)], level='fault_enumeration'),
-    'C16': dict(parts=[dict(profile='C16', flavor='asan', quick=20000, thorough=300000)], level='exploration'),
+    'C16': dict(parts=[dict(profile='C16', flavor='asan', quick=20000, thorough=300000),
+                       dict(profile='C16B', flavor='asan', quick=5000, thorough=250000, modeb=True)], level='exploration'),
     'C17': dict(parts=[dict(profile='C17', flavor='asan', quick=12000, thorough=500000)], level='exploration'),
     'C20': dict(parts=[dict(profile='C20', flavor='asan', quick=3000, thorough=250000),
                        dict(profile='C20', flavor='valgrind', quick=120, thorough=4000)], level='exploration'),
